@@ -58,6 +58,20 @@ def build_instances():
             except Exception as e:
                 rec["error"] = "%s: %s" % (type(e).__name__, str(e)[:200])
             out.append(rec)
+        # all scalar quantities lowered in ONE pass (shared memoisation inside the applier)
+        scal = [r for r in out if (r["cell"], r["gdim"]) == (cellname, gdim) and "out" in r and r["out"].ufl_shape == () and r["q"] != "SpatialCoordinate"]
+        rec = dict(q="Combined", cell=cellname, tdim=tdim, gdim=gdim, parts=[r["q"] for r in scal])
+        try:
+            with warnings.catch_warnings():
+                warnings.simplefilter("error")
+                total = None
+                for r in scal:
+                    total = r["src"] if total is None else total + r["src"]
+                rec["src"] = total
+                rec["out"] = apply_geometry_lowering(total)
+        except Exception as e:
+            rec["error"] = "%s: %s" % (type(e).__name__, str(e)[:200])
+        out.append(rec)
     return out
 
 
@@ -81,6 +95,9 @@ def render():
             lines.append("def %s : Expr :=\n  %s\n" % (nm, w.expr(r["out"])))
             names.append((r["q"], nm))
         lines.append("def all : List (String × Expr) := [%s]\n" % ", ".join("(%s, %s)" % (L.s(q), nm) for q, nm in names))
+        for r in insts:
+            if (r["cell"], r["gdim"]) == (cellname, gdim) and r["q"] == "Combined":
+                lines.append("/-- the quantities summed in `combined`, in order -/\ndef combinedParts : List Expr := [%s]\n" % ", ".join(p[0].lower() + p[1:] for p in r["parts"]))
         lines.append("end UflVerif.Gen.Geometry.%s\n" % tag)
         files["Geometry_" + tag] = "\n".join(lines)
     return files, insts
